@@ -196,7 +196,8 @@ def run(ctx):
     cs = cases(ctx.tier)
     res = ctx.pmap(run_case, cs, chunksize=1, recheck=3)
     ocs = []
-    for b, o, t, cart in (("cube4D_5", "ico_5", "[0.1,0.25,0.3]", False), ("randomQ_4", "cube3D_6", "[0.2,0.3]", True)):
+    for b, o, t, cart in (("cube4D_5", "ico_5", "[0.1,0.25,0.3]", False), ("randomQ_4", "cube3D_6", "[0.2,0.3]", True),
+                          ("cube4D_6", "1", "0.3", False)):
         for lo in range(0, len(ORDER_WORDS), 8):
             ocs.append({"order": True, "b": b, "o": o, "t": t, "cartesian": cart, "f": 2, "lo": lo, "hi": lo + 8})
     ores = ctx.pmap(order_case, ocs, chunksize=1, recheck=1)
